@@ -116,6 +116,17 @@ def main():
         good = [s for s in seqs if cgr_spec(s.encode('utf-8'), size) is not None][:50]
         cases += 1
         if [[tuple(p) for p in r] for r in cg.vectorise_batch(good)] != [cgr_spec(s.encode('utf-8'), size) for s in good]: fail(what='CgrComputer.vectorise_batch', size=size)
+        # a batch with a non-nucleotide somewhere: the per-sequence result of that element is ValueError, so the batch call
+        # raises it - a returned list cannot be "exactly the list of per-sequence results" (a shorter list drops an argument)
+        for bad_at in (0, 1, len(good) // 2, len(good)):
+            for bad_s in ('ACGNT', 'AC-GT', 'AC' + chr(0x0141)):
+                cases += 1
+                mixed = good[:bad_at] + [bad_s] + good[bad_at:]
+                try:
+                    got = cg.vectorise_batch(mixed)
+                    fail(what='CgrComputer.vectorise_batch returned a list for a batch containing a non-nucleotide', size=size, bad_index=bad_at, bad_seq=repr(bad_s), batch=len(mixed), returned=len(got))
+                except ValueError:
+                    pass
         # a large batch of distinct sequences, several times: result i belongs to argument i whatever the pool does
         big = [('ACGT' * (1 + i % 7)) + 'ACGT'[i % 4] * (i % 11) + 'GATC'[(i // 4) % 4] for i in range(3000)]
         want_big = [cgr_spec(s.encode('utf-8'), size) for s in big]
